@@ -231,6 +231,8 @@ func runC09(c *Ctx) {
 			break
 		}
 	}
+	// ---- supervisor half: the three real state machines give up exactly per the window rule (c08sim.go) ----
+	supGiveUp(c)
 }
 
 func dashList(xs []int64) string {
